@@ -155,6 +155,10 @@ impl Story {
         let output_stream_before = self.get_state().get_output_stream().clone();
         self.get_state_mut().reset_output(None);
 
+        // The function runs on the story's current thread: remember where the
+        // story last was, so that the evaluation leaves no trace in it.
+        let previous_pointer_before = self.get_state().get_previous_pointer();
+
         // State will temporarily replace the callstack in order to evaluate
         self.get_state_mut()
             .start_function_evaluation_from_game(func_container.unwrap(), args)?;
@@ -170,6 +174,7 @@ impl Story {
         // during main story evaluation.
         self.get_state_mut()
             .reset_output(Some(output_stream_before));
+        self.get_state().set_previous_pointer(previous_pointer_before);
 
         // Finish evaluation, and see whether anything was produced
         self.get_state_mut()
